@@ -25,6 +25,9 @@ const preludeText = `(set-option :produce-models true)
 (declare-fun ixor (Int Int) Int)
 (declare-fun iandnot (Int Int) Int)
 (declare-fun pow2 (Int) Int)
+(assert (= (pow2 0) 1))
+(assert (forall ((n Int)) (! (>= (pow2 n) 1) :pattern ((pow2 n)))))
+(assert (forall ((n Int) (m Int)) (! (=> (<= n m) (<= (pow2 n) (pow2 m))) :pattern ((pow2 n) (pow2 m)))))
 `
 
 type FuncResult struct {
@@ -171,7 +174,11 @@ func (p *Prog) VerifyFunc(fn *ssa.Function, fc *FuncContract, cf *ContractFile, 
 				if c.Name != "" {
 					name = "post." + c.Name
 				}
-				fr.obligeParts(name, "post", freach, env, c)
+				if strings.HasSuffix(c.Name, "@thorough") && tier != "thorough" {
+					vc.note("post-condition %s is proved only in the thorough tier (callers assume it)", strings.TrimSuffix(c.Name, "@thorough"))
+					continue
+				}
+				fr.obligeParts(strings.TrimSuffix(name, "@thorough"), "post", freach, env, c)
 			}
 			mainPosts := vc.obls[firstPost:]
 			// alternatives: the same post-conditions per return point (used only
@@ -198,7 +205,10 @@ func (p *Prog) VerifyFunc(fn *ssa.Function, fc *FuncContract, cf *ContractFile, 
 						if c.Name != "" {
 							name = "post." + c.Name
 						}
-						fr.obligeParts(name, "post", r.reach, renv, c)
+						if strings.HasSuffix(c.Name, "@thorough") && tier != "thorough" {
+							continue
+						}
+						fr.obligeParts(strings.TrimSuffix(name, "@thorough"), "post", r.reach, renv, c)
 					}
 					byName := map[string]*Obligation{}
 					for _, a := range vc.obls {
@@ -299,6 +309,32 @@ func (p *Prog) VerifyLemma(fc *FuncContract, cf *ContractFile, pkgName string, t
 // assumeLemmas adds the lemmas named by `uses` as assumptions (their proofs
 // are separate obligations of the lemma blocks).
 func (vc *FuncVC) assumeLemmas(st *State) {
+	if vc.cf != nil {
+		// package-level axioms (listed in the evidence as assumptions)
+		for _, ax := range vc.cf.Axioms {
+			env := &SpecEnv{vc: vc, cf: vc.cf, pkg: vc.cf.PkgTypes, vars: map[string]Val{}, oldVars: map[string]Val{}, cur: st, old: st, allocOld: st.Alloc, where: "axiom " + ax.Name}
+			if len(ax.Vars) == 0 {
+				for _, t := range env.BoolParts(ax.C.Expr) {
+					vc.sc.AssumeP(t, "axiom "+ax.Name)
+				}
+				continue
+			}
+			var binders []string
+			for _, v := range ax.Vars {
+				pt := env.lookupType(v.Type)
+				if pt == nil {
+					panic(specErr{"axiom " + ax.Name + ": unknown variable type"})
+				}
+				name := fmt.Sprintf("%s?ax%d", v.Name, vc.sc.n)
+				vc.sc.n++
+				srt := vc.enc.scalarSort(pt)
+				env.vars[v.Name] = scalar(pt, Term{name, srt})
+				binders = append(binders, fmt.Sprintf("(%s %s)", name, srt))
+			}
+			body := env.Bool(ax.C.Expr)
+			vc.sc.AssumeP(Term{fmt.Sprintf("(forall (%s) %s)", strings.Join(binders, " "), body.S), SBool}, "axiom "+ax.Name)
+		}
+	}
 	if vc.fc == nil || vc.cf == nil {
 		return
 	}
